@@ -12,6 +12,24 @@ import traceback
 from pathlib import Path
 
 sys.path.insert(0, str(Path(__file__).resolve().parent))
+
+
+def _private_scratch() -> None:
+    """ophyd.sim and some probes create temporary directories they never remove: give this run (and the
+    worker processes it forks) a scratch directory of its own and remove it at exit.  Replays and evidence
+    are written under /verif, never here."""
+    import atexit
+    import shutil
+    import tempfile
+
+    d = tempfile.mkdtemp(prefix="verif_check_")
+    os.environ["TMPDIR"] = d
+    tempfile.tempdir = d
+    pid = os.getpid()
+    atexit.register(lambda: os.getpid() == pid and shutil.rmtree(d, ignore_errors=True))
+
+
+_private_scratch()
 import common as C  # noqa: E402
 
 
